@@ -139,6 +139,24 @@ func (fr *Frame) modelExternal(callee *ssa.Function, full string, c *ssa.CallCom
 		vc.UsedAssumed["sync/atomic.Value as a plain cell (A-SEQ)"] = true
 		vc.storeAddr(st, &Addr{Kind: aCell, Typ: emptyIface, Ref: vc.materialize(args[0])}, Val{Typ: emptyIface, Ts: args[1].Ts})
 		return Val{}, pc, true
+	case full == "(*sync/atomic.Value).CompareAndSwap":
+		// plain cell (A-SEQ): the swap happens iff the cell holds exactly `old` (same dynamic type and value)
+		vc.UsedAssumed["sync/atomic.Value as a plain cell (A-SEQ)"] = true
+		a := &Addr{Kind: aCell, Typ: emptyIface, Ref: vc.materialize(args[0])}
+		cur := vc.loadAddr(st, a)
+		same := True
+		for i := range cur.Ts {
+			if i < len(args[1].Ts) {
+				same = And(same, Eq(cur.Ts[i], args[1].Ts[i]))
+			}
+		}
+		ok := vc.define("cas_ok", SortBool, same)
+		nv := make([]T, len(cur.Ts))
+		for i := range cur.Ts {
+			nv[i] = Ite(ok, args[2].Ts[i], cur.Ts[i])
+		}
+		vc.storeAddr(st, a, Val{Typ: emptyIface, Ts: nv})
+		return Val{Typ: rt, Ts: []T{ok}}, pc, true
 	case strings.HasPrefix(full, "(*sync/atomic.") && (strings.HasSuffix(full, ").Load") || strings.HasSuffix(full, ").Store")):
 		// atomic.Int64, Uint32, Bool ... as plain cells keyed by the receiver reference
 		recvT := callee.Signature.Recv().Type().(*types.Pointer).Elem()
